@@ -54,7 +54,8 @@ def run(ctx):
         ctx.check('C03.G1', ok, cn.name, 'CleanNode:loop-over-all-inputs', 'src/build.cc:%s' % l['line'],
                   'the %s loop over the dependent edge\'s inputs ends before the order-only inputs '
                   '(bound: %s)' % (l['style'], l['bound']))
-    fi = [e for e in cn.events('call') if lastname(e.get('name')) == 'find_if']
+    # the "all regular inputs clean" test: find_if(..) == end, none_of(..), !any_of(..)
+    fi = [e for e in cn.events('call') if lastname(e.get('name') or '').split('<')[0] in ('find_if', 'none_of', 'any_of')]
     for e in fi:
         res = [dstr(_resolve_local(cn, a)) for a in e['args'][:2]]
         ctx.check('C03.G1', 'Edge::order_only_deps_' in res[1] and 'begin()' in res[0], cn.name,
@@ -140,7 +141,8 @@ def run(ctx):
     for e in unwant:
         facts = cn.facts_at(e)
         ok = fact_holds(facts, is_var('outputs_dirty'), False) and \
-            fact_holds(facts, lambda a: 'find_if' in dstr(a), True)
+            (fact_holds(facts, lambda a: 'find_if' in dstr(a) and 'end' in dstr(a).split('find_if')[-1], True) or
+             fact_holds(facts, lambda a: 'none_of' in dstr(a), True) or fact_holds(facts, lambda a: 'any_of' in dstr(a), False))
         ctx.check('C03.O1', ok, cn.name, 'CleanNode:unwant-guard', cn.where(e),
                   'un-want only under "all regular inputs clean" and "outputs not dirty"')
         blk = cn.blocks[e['_b']]['ev']
